@@ -38,6 +38,16 @@ def check_run(r, cfg):
     if any(c != 1 for c in cnt.values()):
         raise V_("Market", "C10 every order / cancel / fill / expiry record is delivered exactly once", dict(collections.Counter(cnt.values())))
     ords = [e[1] for e in EV if e[0] == "L_ord"]; cans = [e[1] for e in EV if e[0] == "L_can"]; exps = [e[1] for e in EV if e[0] == "L_exp"]
+    # ---- C10 in order: the order / cancel / fill records reach the logger in the order in which the events happened (the agents' callbacks are synchronous and
+    #      name the same record objects: the first callback of a record marks when it happened)
+    first_cb = {}
+    for i_, e in enumerate(EV):
+        if e[0] in ("cb_sub", "cb_can", "cb_exe"):
+            first_cb.setdefault(id(e[2]), i_)
+    delivered = [first_cb[id(e[1])] for e in EV if e[0] in ("L_ord", "L_can", "L_exe") and id(e[1]) in first_cb]
+    if delivered != sorted(delivered):
+        k_ = next(i_ for i_ in range(1, len(delivered)) if delivered[i_] < delivered[i_ - 1])
+        raise V_("Logger._process", "C10 order, cancel and fill records are delivered in the order in which the events happened", dict(position=k_))
     # ---- C11 callbacks
     sub = collections.Counter(id(e[2]) for e in EV if e[0] == "cb_sub")
     if any(sub[id(l)] != 1 for l in ords) or len(sub) != len(ords) or any(e[2].agent_id != e[1] for e in EV if e[0] == "cb_sub"):
